@@ -525,6 +525,40 @@ func typedUnits(which string) []engine.Unit {
 			return true
 		}}, which)
 	})
+	add("gomaps-nan-keys-nested", func(r *engine.Rec) {
+		// NaN keys whose values are maps themselves (ranking the values of two NaN-keyed associations sorts
+		// again, inside the sort), and a NaN key held in an interface (map[any]V)
+		nan := math.NaN()
+		inner := func(v int) map[string]int { return map[string]int{"a": v, "b": v + 1} }
+		mkN := func(vs ...int) map[float64]map[string]int {
+			m := map[float64]map[string]int{}
+			for _, v := range vs {
+				m[math.NaN()] = inner(v)
+			}
+			return m
+		}
+		ns := []map[float64]map[string]int{mkN(), mkN(1), mkN(1, 5), mkN(5, 1), mkN(1, 5, 9), mkN(9, 5, 1), mkN(1, 1), mkN(2, 5)}
+		canon := func(m map[float64]map[string]int) string {
+			var vs []string
+			for _, in := range m {
+				vs = append(vs, fmt.Sprint(in["a"]))
+			}
+			sort.Strings(vs)
+			return strings.Join(vs, ",")
+		}
+		laws(r, uni[map[float64]map[string]int]{name: "map[float64]map[string]int with NaN keys", vals: ns,
+			eqRef: func(a, b map[float64]map[string]int) bool { return canon(a) == canon(b) }}, which)
+		am := []map[any]int{{}, {nan: 1}, {nan: 1}, {nan: 2}, {nan: 1, "k": 2}, {"k": 2, nan: 1}, {"k": 2}, {nan: 1, nan: 1}}
+		acanon := func(m map[any]int) string {
+			var vs []string
+			for k, v := range m {
+				vs = append(vs, fmt.Sprintf("%T:%v=%d", k, k, v))
+			}
+			sort.Strings(vs)
+			return strings.Join(vs, ",")
+		}
+		laws(r, uni[map[any]int]{name: "map[any]int with a NaN key", vals: am, eqRef: func(a, b map[any]int) bool { return acanon(a) == acanon(b) }}, which)
+	})
 	add("collections-typed", func(r *engine.Rec) {
 		N := common.N()
 		var ls []col.ListLike[int]
